@@ -179,7 +179,12 @@ class _BcryptCommon(  # type: ignore[misc]
         )
 
     def to_string(self):
-        return "%s%02d$%s%s" % (self.ident, self.rounds, self.salt, self.checksum)
+        return "%s%02d$%s%s" % (
+            self.ident,
+            self.rounds,
+            self.salt,
+            self.checksum or "",
+        )
 
     # NOTE: this should be kept separate from to_string()
     #       so that bcrypt_sha256() can still use it, while overriding to_string()
@@ -1044,12 +1049,16 @@ class bcrypt_sha256(_wrapped_bcrypt):
             template = self._v1_template
         else:
             template = self._v2_template
-        return template % (
+        hash = template % (
             self.ident.strip(_UDOLLAR),
             self.rounds,
             self.salt,
-            self.checksum,
+            self.checksum or "",
         )
+        if not self.checksum:
+            # config string: no digest, and no separator in front of it
+            hash = hash[:-1]
+        return hash
 
     def __init__(self, version=None, **kwds):
         if version is not None:
